@@ -28,7 +28,13 @@ Variable apply_opt : nat -> T -> list E -> option T * T.
    storage fault (memory.VerifC15ResetApplyFault n) be expressed. *)
 
 (* the outcome of the k-th row-edit call of the statement *)
-Inductive call := CGood (e : E) | CBad (ignorable : bool).
+Inductive call :=
+| CGood (e : E)               (* the call accumulates its edit *)
+| CBad (ignorable : bool)     (* the call returns an error that reaches the statement iterator *)
+| CHandled                    (* the call returns an error the ROW iterator handles itself (the rejected insert of
+                                 INSERT .. ON DUPLICATE KEY UPDATE / REPLACE): nothing accumulated, the loop goes on *)
+| CFlush.                     (* tableEditor.IndexedAccess in the middle of the statement (self-referential foreign
+                                 key lookups): ApplyEdits + Clear on the edited table, in place *)
 
 Record editor := {
   edited : T;            (* editedTable.data / the accumulator's tableData *)
@@ -54,26 +60,40 @@ Definition discard_changes (ed : editor) (ignorable : bool) : editor :=
 
 (* StatementComplete returns nil in both cases.  The accumulator edits the session's TableData object in place
    (sess.editAccumulator is built over sess.tableData), so a failed ApplyEdits is visible as it was left. *)
-Definition statement_complete (ed : editor) : editor :=
-  match apply_opt 1 (edited ed) (acc ed) with
+Definition statement_complete_at (n : nat) (ed : editor) : editor :=
+  match apply_opt n (edited ed) (acc ed) with
   | (Some t, _) => {| edited := t; initial := initial ed; acc := []; discard := discard ed; published := t |}
   | (None, t) => {| edited := t; initial := initial ed; acc := acc ed; discard := discard ed; published := t |}
   end.
 
+Definition statement_complete (ed : editor) : editor := statement_complete_at 1 ed.
+
 (* tableEditor.Close: error flag, editor *)
-Definition close_editor (ed : editor) : bool * editor :=
+Definition close_editor_at (n : nat) (ed : editor) : bool * editor :=
   if discard ed
   then (false, {| edited := edited ed; initial := initial ed; acc := acc ed; discard := true; published := initial ed |})
-  else match apply_opt 2 (edited ed) (acc ed) with
+  else match apply_opt n (edited ed) (acc ed) with
        | (Some t, _) => (false, {| edited := t; initial := initial ed; acc := []; discard := false; published := t |})
        | (None, t) => (true, {| edited := t; initial := initial ed; acc := acc ed; discard := false; published := t |})
        end.
+
+Definition close_editor (ed : editor) : bool * editor := close_editor_at 2 ed.
+
+(* IndexedAccess: ApplyEdits (call number 0: not one of the two statement-level calls) and Clear; the accumulator
+   works on the session's TableData, so the result is what the session holds *)
+Definition flush (ed : editor) : editor :=
+  match apply_opt 0 (edited ed) (acc ed) with
+  | (Some t, _) => {| edited := t; initial := initial ed; acc := []; discard := discard ed; published := t |}
+  | (None, t) => {| edited := t; initial := initial ed; acc := acc ed; discard := discard ed; published := t |}
+  end.
 
 (* the row loop: stop at the first call that returns an error *)
 Fixpoint feed (ed : editor) (cs : list call) : editor * option bool :=
   match cs with
   | [] => (ed, None)
   | CGood e :: t => feed (accumulate ed e) t
+  | CHandled :: t => feed ed t
+  | CFlush :: t => feed (flush ed) t
   | CBad ig :: _ => (ed, Some ig)
   end.
 
@@ -91,9 +111,38 @@ Definition run_stmt (t : T) (cs : list call) : result * T :=
   end.
 
 Definition good_edits (cs : list call) : list E :=
-  flat_map (fun c => match c with CGood e => [e] | CBad _ => [] end) cs.
+  flat_map (fun c => match c with CGood e => [e] | _ => [] end) cs.
 
-Definition all_good (cs : list call) : bool := forallb (fun c => match c with CGood _ => true | CBad _ => false end) cs.
+(* no call returns an error to the statement iterator *)
+Definition all_good (cs : list call) : bool := forallb (fun c => match c with CBad _ => false | _ => true end) cs.
+
+(* ---- CheckpointingTableEditorIter (INSERT IGNORE): StatementBegin / StatementComplete around EVERY row; an
+   ignorable error discards that row only and the loop goes on; any other error discards that row and stops ---- *)
+(* [n] numbers the ApplyEdits calls of the whole statement (one per completed row, then the one in Close) *)
+Fixpoint feed_ckpt (ed : editor) (n : nat) (cs : list call) : editor * option bool * nat :=
+  match cs with
+  | [] => (ed, None, n)
+  | c :: t =>
+      let ed0 := statement_begin ed in
+      match c with
+      | CGood e => feed_ckpt (statement_complete_at n (accumulate ed0 e)) (S n) t
+      | CHandled => feed_ckpt (statement_complete_at n ed0) (S n) t
+      | CFlush => feed_ckpt (statement_complete_at n (flush ed0)) (S n) t
+      | CBad true => feed_ckpt (discard_changes ed0 true) n t
+      | CBad false => (discard_changes ed0 false, Some false, n)
+      end
+  end.
+
+(* the Next call that finds the end of the rows is wrapped like any other: StatementBegin, io.EOF, StatementComplete *)
+Definition run_stmt_ckpt (t : T) (cs : list call) : result * T :=
+  let '(ed1, err, n) := feed_ckpt (open_editor t) 1 cs in
+  match err with
+  | Some _ => let '(_, ed2) := close_editor_at n ed1 in (RErr, published ed2)
+  | None =>
+      let ed_eof := statement_complete_at n (statement_begin ed1) in
+      let '(cerr, ed2) := close_editor_at (S n) ed_eof in
+      ((if cerr then RErr else ROk), published ed2)
+  end.
 
 (* fault injection (memory.VerifResetFault k): the k-th call (1-based) returns an error *)
 Fixpoint inject (k : nat) (cs : list call) : list call :=
@@ -110,18 +159,22 @@ Variable audit_edit : A -> E.
 
 (* per row: the trigger body is a complete statement on the other table, then the row reaches the editor.
    On failure the rollback iterator's savepoint calls fail (memory.Session), so nothing is undone there. *)
-Fixpoint feed_trig (ed : editor) (other : T) (cs : list (A * call)) : editor * T * option bool :=
+(* [None] instead of an audit row: the trigger body itself fails (SIGNAL) before the row reaches the editor *)
+Fixpoint feed_trig (ed : editor) (other : T) (cs : list (option A * call)) : editor * T * option bool :=
   match cs with
   | [] => (ed, other, None)
-  | (a, c) :: t =>
+  | (None, _) :: _ => (ed, other, Some false)
+  | (Some a, c) :: t =>
       let other' := snd (run_stmt other [CGood (audit_edit a)]) in
       match c with
       | CGood e => feed_trig (accumulate ed e) other' t
+      | CHandled => feed_trig ed other' t
+      | CFlush => feed_trig (flush ed) other' t
       | CBad ig => (ed, other', Some ig)
       end
   end.
 
-Definition run_stmt_trig (t other : T) (cs : list (A * call)) : result * T * T :=
+Definition run_stmt_trig (t other : T) (cs : list (option A * call)) : result * T * T :=
   let ed0 := statement_begin (open_editor t) in
   let '(ed1, other', err) := feed_trig ed0 other cs in
   match err with
@@ -135,3 +188,5 @@ End Editor.
 
 Arguments CGood {E} e.
 Arguments CBad {E} ignorable.
+Arguments CHandled {E}.
+Arguments CFlush {E}.
